@@ -2,6 +2,10 @@
 from __future__ import annotations
 
 import itertools
+import os
+import sys
+import time
+import warnings
 
 from vf import core
 from vf import gen_expr as G
@@ -60,6 +64,16 @@ ENV_CODE = {
 }
 
 
+def drive(coro):
+    """run a coroutine that never really suspends (no event loop involved)."""
+    try:
+        coro.send(None)
+    except StopIteration as e:
+        return e.value
+    coro.close()
+    raise RuntimeError("template coroutine suspended")
+
+
 def jinja_outcomes(kind, src, datas):
     """-> [(value_outcome, render_outcome)] per data assignment, from the real jinja2."""
     box = []
@@ -84,7 +98,7 @@ def jinja_outcomes(kind, src, datas):
             try:
                 if kind == "async":
                     del box[:]
-                    vexpr.render(**data)
+                    drive(vexpr.render_async(**data))
                     v = box[0]
                 else:
                     v = vexpr(**data)
@@ -92,7 +106,10 @@ def jinja_outcomes(kind, src, datas):
             except Exception as e:  # noqa: BLE001
                 vo = ("exc", type(e).__name__)
             try:
-                ro = ("ok", G.norm_text(tmpl.render(**data)))
+                if kind == "async":
+                    ro = ("ok", G.norm_text(drive(tmpl.render_async(**data))))
+                else:
+                    ro = ("ok", G.norm_text(tmpl.render(**data)))
             except Exception as e:  # noqa: BLE001
                 ro = ("exc", type(e).__name__)
             out.append((vo, ro))
@@ -124,6 +141,56 @@ def script_for(kind, src, di):
     )
 
 
+def compare_one(ast, kind, di):
+    """-> None if jinja2 agrees with the reference on (ast, env kind, data), else
+    (channel, expected, got)."""
+    ref = G.reference(ast, G.make_data(di) if di >= 0 else {})
+    if ref[0] == "skip":
+        return None
+    (vo, ro), = jinja_outcomes(kind, G.to_src(ast), [G.make_data(di) if di >= 0 else {}])
+    if ref[0] == "exc":
+        ev = er = ("exc", ref[1])
+    else:
+        ev, er = ("ok", ref[1]), ("ok", ref[2])
+    if vo != ev:
+        return ("value", ev, vo)
+    if ro != er:
+        return ("render", er, ro)
+    return None
+
+
+def minimize(ast, kind, di, info):
+    """descend into the first violating sub-expression until none violates on
+    its own; the signature is taken from that minimal expression."""
+    cur = ast
+    while True:
+        for _, child in G.subnodes(cur):
+            try:
+                ci = compare_one(child, kind, di)
+            except core.CaseTimeout:
+                ci = None
+            if ci is not None:
+                cur, info = child, ci
+                break
+        else:
+            return cur, info
+
+
+def root_class(ast):
+    k = ast[0]
+    if k == "cmp":
+        return "chain" if len(ast[2]) > 1 else "cmp"
+    if k in ("and", "or"):
+        return "logic"
+    if k in ("not",):
+        return "un"
+    if k in ("list", "tuple", "dict"):
+        return "lit"
+    if k in ("int", "float", "str", "true", "false", "none", "name"):
+        return "atom"
+    return k
+
+
 def check_case(p, section, label, ast, src, kind, data_ids):
     """evaluate one source in one environment on the given data assignments."""
     datas = [G.make_data(i) if i >= 0 else {} for i in data_ids]
@@ -135,7 +202,7 @@ def check_case(p, section, label, ast, src, kind, data_ids):
         got = jinja_outcomes(kind, src, datas)
     except core.CaseTimeout:
         p.evals += 1
-        p.violation(f"C02/hang/{_cls(label)}", {"msg": f"[{kind}] {src!r}: no answer within 20 s",
+        p.violation(f"C02/hang/{root_class(ast)}", {"msg": f"[{kind}] {src!r}: no answer within 20 s",
                                                     "script": script_for(kind, src, data_ids[0])})
         return
     for di, ref, (vo, ro) in zip(data_ids, refs, got):
@@ -150,16 +217,14 @@ def check_case(p, section, label, ast, src, kind, data_ids):
         p.sig((label.split(":")[0], _kind(ref)))
         if ref[0] == "ok":
             p.count("evaluated_to_value")
-        if vo != ev:
-            p.violation(f"C02/value/{_cls(label)}/{_kind(ev)}->{_kind(vo)}", {
-                "msg": f"[{kind}, data {di}] {src!r}: value {vo!r}, reference {ev!r}",
-                "env": kind, "source": src, "data": di, "got": repr(vo), "expected": repr(ev), "form": label, "section": section,
-                "script": script_for(kind, src, di)})
-        if ro != er:
-            p.violation(f"C02/render/{_cls(label)}/{_kind(er)}->{_kind(ro)}", {
-                "msg": f"[{kind}, data {di}] {{{{ {src} }}}}: rendered {ro!r}, reference {er!r}",
-                "env": kind, "source": src, "data": di, "got": repr(ro), "expected": repr(er), "form": label, "section": section,
-                "script": script_for(kind, src, di)})
+        if vo != ev or ro != er:
+            info = ("value", ev, vo) if vo != ev else ("render", er, ro)
+            small, (ch, exp, g) = minimize(ast, kind, di, info)
+            ssrc = G.to_src(small)
+            p.violation(f"C02/{ch}/{root_class(small)}/{_kind(exp)}->{_kind(g)}", {
+                "msg": f"[{kind}, data {di}] {ssrc!r}: {ch} {g!r}, reference {exp!r}  (found in {src!r}, section {section})",
+                "env": kind, "source": ssrc, "found_in": src, "data": di, "channel": ch, "got": repr(g),
+                "expected": repr(exp), "form": label, "section": section, "script": script_for(kind, ssrc, di)})
 
 
 def envs_for(quick, n):
@@ -169,31 +234,50 @@ def envs_for(quick, n):
 # ------------------------------------------------------------------ flat strings
 
 MENU3 = [G.Int(2), G.Int(3), G.Int(1), G.Int(0), G.Str("ab"), G.List(G.Int(1), G.TRUE)]
-MENU4 = [G.Int(2), G.Int(3), G.Int(1), G.Str("ab")]
+MENU4 = [G.Int(2), G.Int(3), G.Str("ab")]
 MENU_POW3 = [G.Int(2), G.Int(1)]
+_PH = [G.Name("p%d" % i) for i in range(5)]
+
+
+def _fast(ev, tree):
+    try:
+        v = ev.ev(tree)
+        return (type(v).__name__, repr(v))
+    except (G.TooBig, G.Unspecified):
+        return ("skip", "")
+    except Exception as e:  # noqa: BLE001
+        return ("exc", type(e).__name__)
 
 
 def pick_operands(ops, k):
-    """the k operand tuples (from a fixed candidate list) on which the parse
-    trees of `a ops[0] b ops[1] c ...` are told apart best."""
+    """the k operand tuples (from a fixed candidate list: all tuples over a
+    small atom menu) on which the parse trees of `a ops[0] b ops[1] c ...` are
+    told apart best: first those where the value of the expected tree is
+    produced by no other bracketing, then by number of distinct outcomes."""
     n = len(ops) + 1
     npow = sum(1 for o in ops if o == "**")
     menu = MENU_POW3 if npow >= 3 else (MENU3 if n <= 3 else MENU4)
+    toks = [("atom", _PH[0])]
+    for i, o in enumerate(ops):
+        toks += [("op", o), ("atom", _PH[i + 1])]
+    want_tree = G.parse_flat(toks)
+    trees = G.all_bracketings(_PH[:n], list(ops))
+    vals = [G.Ev({}).ev(a) for a in menu]
+    in_trees = 1 if want_tree in trees else 0  # comparison chains are not among the binary bracketings
     scored = []
-    for idx, cand in enumerate(itertools.product(menu, repeat=n)):
-        toks = [("atom", cand[0])]
-        for o, a in zip(ops, cand[1:]):
-            toks += [("op", o), ("atom", a)]
-        want = G.reference(G.parse_flat(toks), {})
+    for idx, cand in enumerate(itertools.product(range(len(menu)), repeat=n)):
+        ev = G.Ev({"p%d" % i: vals[c] for i, c in enumerate(cand)})
+        want = _fast(ev, want_tree)
         if want[0] == "skip":
             continue
-        outs = [G.reference(t, {})[:2] for t in G.all_bracketings(list(cand), list(ops))]
-        distinct = len(set(outs))
-        unique = sum(1 for o in outs if o == want[:2]) <= 1
-        scored.append((-(2 if unique else 0) - (1 if want[0] == "ok" else 0), -distinct, idx, cand))
-    scored.sort(key=lambda s: s[:3])
-    full = bool(scored) and -scored[0][1] == len(G.all_bracketings([0] * n, list(ops)))
-    return [s[3] for s in scored[:k]], full
+        outs = [_fast(ev, t) for t in trees]
+        unique = sum(1 for o in outs if o == want) == in_trees
+        scored.append((-(2 if unique else 0) - (0 if want[0] == "exc" else 1), -len(set(outs)), idx, cand))
+    scored.sort()
+    full = 0
+    if scored:
+        full = (1 if scored[0][0] <= -2 else 0) + (2 if -scored[0][1] == len(trees) else 0)
+    return [tuple(menu[c] for c in s[3]) for s in scored[:k]], full
 
 
 def flat_variants(ops, cand, prefixes):
@@ -220,7 +304,9 @@ def flat_shard(arg):
         ops = (first,) + rest
         cands, full = pick_operands(ops, k)
         p.count("flat_operator_tuples")
-        if full:
+        if full & 1:
+            p.count("flat_tuples_expected_tree_value_unique")
+        if full & 2:
             p.count("flat_tuples_all_parse_trees_distinct")
         label = ".".join(sorted({LEVEL_NAME[G.FLAT_LEVEL[o]] for o in ops}))
         for cand in cands:
@@ -268,7 +354,6 @@ def space(name):
             "d2-quick": lambda: G.ShapeSpace([G.FORMS, G.FORMS_REP_SMALL], 2),
             "d2-all-x-rep": lambda: G.ShapeSpace([G.FORMS, G.FORMS_REP], 2),
             "d2-rep-x-all": lambda: G.ShapeSpace([G.FORMS_REP_SMALL, G.FORMS], 2),
-            "d3-ops-quick": lambda: G.ShapeSpace([G.FORMS_OPS3, G.FORMS_OPS3, G.FORMS_OPS3[:4]], None),
             "d3-ops": lambda: G.ShapeSpace([G.FORMS_OPS3, G.FORMS_OPS3, G.FORMS_OPS3], None),
             "d2-ops": lambda: G.ShapeSpace([G.FORMS_OPS, G.FORMS_OPS], None),
         }[name]()
@@ -276,7 +361,7 @@ def space(name):
 
 
 def shape_shard(arg):
-    quick, sname, lo, hi, vec_ids, all_envs = arg
+    quick, sname, lo, hi, vec_ids, all_envs, rotate_vecs = arg
     p = core.Part()
     sp = space(sname)
     for i in range(lo, hi):
@@ -286,7 +371,7 @@ def shape_shard(arg):
             continue
         has_pow = G.shape_pows(shape) > 0
         label = shape[0].name
-        for vi in vec_ids:
+        for vi in (vec_ids if not rotate_vecs else (vec_ids[i % len(vec_ids)],)):
             ast = G.fill(shape, G.LEAF_VECTORS[vi])
             if has_pow:
                 ast = G.clamp_for_pow(ast, 3 if sname.startswith("d2") else 2)
@@ -323,9 +408,19 @@ def async_ce_shard(_):
     return p
 
 
+def _phase(name, t0=[None]):
+    if os.environ.get("VERIF_DEBUG"):
+        now = time.time()  # progress display only, never part of an oracle
+        if t0[0] is not None:
+            sys.stderr.write("  phase %s: %.1fs\n" % (name, now - t0[0]))
+        t0[0] = now
+
+
 def run(ctx: core.Ctx):
     core.import_all_jinja()
+    warnings.filterwarnings("ignore", category=SyntaxWarning)  # python's own warning about `0[1:]` in generated code
     quick = ctx.quick
+    _phase("start")
     ctx.rule = ("cases = (source, environment, data assignment); sources are (a) flat operator strings for every operator "
                 "tuple with selected discriminating operand tuples (+ unary/not prefixed variants), (b) every operator form "
                 "applied to every atom tuple, (c) every operator shape of depth 2 (thorough: + depth 3 operator-only) filled "
@@ -346,19 +441,26 @@ def run(ctx: core.Ctx):
             for g in FLAT_OPS:
                 shards.append((quick, 4, f, None, 2, False, g))
     ctx.pmap(flat_dispatch, shards)
+    _phase("flat")
     # (b) depth 1
     ctx.pmap(depth1_shard, [(quick, i) for i in range(len(G.FORMS))])
-    # (c) shapes
-    plan = [("d2-quick", (0, 1), False, 2000), ("d3-ops-quick", (0,), False, 4000)] if quick else [
-        ("d2-all-x-rep", (0, 1, 2, 3), False, 2000), ("d2-rep-x-all", (0, 1, 2, 3), False, 2000),
-        ("d2-quick", (0, 1), True, 1000), ("d2-ops", (0, 1, 2), True, 200), ("d3-ops", (0, 1), False, 4000)]
+    _phase("depth1")
+    # (c) shapes: (space, leaf vectors, all four environments?, one vector per shape in rotation?, shard size)
+    if quick:
+        plan = [("d2-quick", (0, 1, 2, 3), False, True, 1500), ("d2-ops", (0, 1, 2), True, False, 100)]
+    else:
+        plan = [("d2-all-x-rep", (0, 1, 2, 3), False, True, 2000), ("d2-rep-x-all", (0, 1, 2, 3), False, True, 2000),
+                ("d2-quick", (0, 1, 2, 3), True, True, 1000), ("d2-ops", (0, 1, 2, 3), True, False, 100),
+                ("d3-ops", (0, 1), False, False, 3000)]
     shards = []
     bounds = {}
-    for sname, vecs, all_envs, chunk in plan:
+    for sname, vecs, all_envs, rotate, chunk in plan:
         n = space(sname).count()
-        bounds[sname] = {"shapes": n, "leaf_vectors": len(vecs), "all_envs": all_envs}
-        shards += [(quick, sname, a, b, vecs, all_envs) for a, b in ranges(n, chunk)]
+        bounds[sname] = {"shapes": n, "leaf_vectors": len(vecs), "one_vector_per_shape_in_rotation": rotate,
+                         "all_four_environments": all_envs}
+        shards += [(quick, sname, a, b, vecs, all_envs, rotate) for a, b in ranges(n, chunk)]
     ctx.pmap(shape_shard, shards)
+    _phase("shapes")
     ctx.cov["bounds"] = {
         "flat_operator_alphabet": len(FLAT_OPS), "flat_tuple_lengths": "1..3 over 18 operators; 4 over "
         + ("9 operators" if quick else "18 operators"),
@@ -382,7 +484,9 @@ def flat_shard2(quick, f, g, k):
         ops = (f, g) + rest
         cands, full = pick_operands(ops, k)
         p.count("flat_operator_tuples")
-        if full:
+        if full & 1:
+            p.count("flat_tuples_expected_tree_value_unique")
+        if full & 2:
             p.count("flat_tuples_all_parse_trees_distinct")
         label = ".".join(sorted({LEVEL_NAME[G.FLAT_LEVEL[o]] for o in ops}))
         for cand in cands:
